@@ -135,7 +135,7 @@ def explore(ctx):
         shapes += [(4, 4), (2, 4), (4, 3)]
         pats, wnreq = PATTERNS, WNREQ
     else:
-        pats, wnreq = ['generic', 'saddle', 'wide', 'flat'], ['none', 'sub', 'full']
+        pats, wnreq = ['generic', 'saddle', 'wide', 'tiny', 'flat'], ['none', 'sub', 'full']
     cases = []
     for shape, pat, mode, lay, wq in itertools.product(shapes, pats, ['linear', 'exp'], LAYOUTS, wnreq):
         cases.append({'shape': list(shape), 'pattern': pat, 'mode': mode, 'layout': lay, 'wn': wq})
